@@ -53,6 +53,7 @@ type Obl struct {
 	Guard  string
 	Goal   string
 	Func   string
+	Where  string // source position of the instruction that generated it (informational; names carry no line numbers)
 	// results
 	Status  string // discharged | refuted | undecided
 	Backend string
@@ -106,6 +107,9 @@ type VC struct {
 	gkinds   []guardKind
 	gkDone   bool
 	trace    []string
+	curPos   string
+	boolDefs map[string]string
+	chET     types.Type
 }
 
 type inputVar struct {
@@ -142,7 +146,12 @@ func isAtom(t string) bool {
 
 // def names a term so that it is shared instead of duplicated.
 func (vc *VC) def(sort, term string) string {
-	if vc.inline > 0 || isAtom(term) {
+	// under a binder terms mention bound variables and cannot be named; elsewhere
+	// (including specification code outside binders) naming keeps scripts small
+	if vc.binder > 0 || vc.rec != nil || isAtom(term) {
+		return term
+	}
+	if vc.inline > 0 && len(term) < 200 {
 		return term
 	}
 	n := vc.freshName("v")
@@ -150,6 +159,12 @@ func (vc *VC) def(sort, term string) string {
 	// expanded inside triggers, and triggers must not contain ite/store)
 	vc.emit(fmt.Sprintf("(declare-const %s %s)", n, sort))
 	vc.emit(fmt.Sprintf("(assert (= %s %s))", n, term))
+	if sort == "Bool" {
+		if vc.boolDefs == nil {
+			vc.boolDefs = map[string]string{}
+		}
+		vc.boolDefs[n] = term
+	}
 	return n
 }
 
@@ -180,7 +195,7 @@ func (vc *VC) oblige(kind string, tags []string, goal string) *Obl {
 	} else {
 		vc.oblNames[name] = 1
 	}
-	o := &Obl{Name: name, Kind: "assert", Tags: tags, Prefix: len(vc.lines), Guard: vc.st.Cond, Goal: goal, Func: vc.root.String()}
+	o := &Obl{Name: name, Kind: "assert", Tags: tags, Prefix: len(vc.lines), Guard: vc.st.Cond, Goal: goal, Func: vc.root.String(), Where: vc.curPos}
 	if goal == "true" || vc.st.Cond == "false" {
 		o.Status = "discharged"
 		o.Backend = "trivial"
